@@ -65,11 +65,10 @@ def run(chk, replay=None):
     with S.Env() as env:
         S.table_obligations(chk, env)
         chk.proof()
-        S.probe_p13(env)
+        S.probe_switches(chk, env)
         specs = ([replay["input"]] if "input" in replay else []) if replay else cases(chk, env)
         stats, rrs, infos, specs = S.drive(chk, env, "C10", specs, nontrivial)
         chk.cov["distribution"] = stats
-        chk.cov["p13_repaired_in_tree"] = env.p13_fixed
         for sp in specs[:2] + specs[-2:]:
             chk.sample(json.dumps(S.strip_spec(sp))[:400])
     chk.cov["rule"] = ("one evaluation = one real `xvc pipeline run` (hook-instrumented binary) of a generated pipeline, its H1 trace replayed through the extracted model "
